@@ -17,7 +17,7 @@ RULE = ("hostile inputs: character soup, prefixes and 1-3 character edits of Pyt
         "is run through generate_tokens, parse_string (exec and eval) and (a fraction) parse_file under a logical-step budget; distinct non-trivial = "
         "distinct input text with at least 2 characters that reached the outcome classifier")
 ASSUMPTIONS = [
-    "termination is decided on sys.monitoring PY_START/PY_RESUME/backward-JUMP counts inside peg_parser code objects; cap = max(5e7, 5e5*len) steps",
+    "termination is decided on sys.monitoring PY_START/PY_RESUME/backward-JUMP counts inside peg_parser code objects; cap = max(2e7, 2e5*len) steps (50x the largest count seen on the unchanged tree)",
     "a wall-clock watchdog firing is inconclusive, never a violation",
 ]
 TOLERATED_INCONCLUSIVE = 0
@@ -40,7 +40,7 @@ def worker_init():
 
 
 def cap_for(src):
-    return int(max(5e7, 5e5 * len(src)))
+    return int(max(2e7, 2e5 * len(src)))
 
 
 def _tokens(src):
@@ -134,9 +134,9 @@ def check_case(acc, src, rnd=None, file_p=0.1):
     if acc.evals % 2999 == 0:
         acc.sample(src[:160])
     cls = base.load_repo()
-    observe(acc, "tokens", src, _tokens, src)
-    observe(acc, "exec", src, cls.parse_string, src, "exec")
-    observe(acc, "eval", src, cls.parse_string, src, "eval")
+    for point, fn, args in (("tokens", _tokens, (src,)), ("exec", cls.parse_string, (src, "exec")), ("eval", cls.parse_string, (src, "eval"))):
+        if observe(acc, point, src, fn, *args).kind in ("budget", "timeout"):
+            return  # the other observation points would only repeat the same non-termination
     if rnd is None or rnd.random() < file_p:
         try:
             src.encode("utf-8")
@@ -156,21 +156,21 @@ def run_shard(shard):
     n = shard.get("n", 0)
     _tmp["budget_hits"] = 0
 
-    def go(s):
-        if _tmp["budget_hits"] >= 3:
+    def go(s, r=rnd):
+        if _tmp["budget_hits"] >= 1:
             acc.count("skipped_after_budget_hits")
             return
-        check_case(acc, s, rnd)
+        check_case(acc, s, r)
 
     if kind == "fixed":
         for s in gen_xonsh.UNTERMINATED:
             for v in (s, s + "\n", s + "\n\n", "x = 1\n" + s, s + "\nx = 1\n"):
-                check_case(acc, v, None)
+                go(v, None)
         for s in gen_xonsh.XONSH_STMTS + gen_xonsh.PY_STMTS:
-            check_case(acc, s, None)
+            go(s, None)
         for i, ch in enumerate(gen_xonsh.HOSTILE):
             for tmpl in ("{}", "x = 1 {}", "x = 'a' {}\n", "{} x\n", "f(a, {} b)\n", "if a:\n    {}\n", "$(ls {})\n", "x = [1, {}\n 2]\n", "f'{{a}} {}'\n", "'''a\n{}\nb'''\n"):
-                check_case(acc, tmpl.format(ch), None)
+                go(tmpl.format(ch), None)
     elif kind == "nesting":
         for d in shard["depths"]:
             for o, c in ("()", "[]", "{}"):
